@@ -340,7 +340,11 @@ func (p *ProjectRunner) getDoneOrRunningProcess(name string) *Process {
 
 func (p *ProjectRunner) removeRunningProcess(process *Process) {
 	p.runProcMutex.Lock()
-	delete(p.runningProcesses, process.getName())
+	// only this instance: a newer instance may have been registered under the same name
+	// (restart of a process that was still waiting for its dependencies)
+	if current, ok := p.runningProcesses[process.getName()]; ok && current == process {
+		delete(p.runningProcesses, process.getName())
+	}
 	p.runProcMutex.Unlock()
 }
 
